@@ -51,7 +51,10 @@ def build_term(t, V):
 
 
 def _chain(fn_nary, binop, form, parts):
-    if form == "nary" or len(parts) == 1:
+    from entity_query_language.symbolic import SymbolicExpression
+    # `&` / `|` need a symbolic expression on their left (Python would evaluate `True & expr` itself); with a plain
+    # constant among the operands the function form is what a user can write
+    if form == "nary" or len(parts) == 1 or any(not isinstance(p, SymbolicExpression) for p in parts):
         return fn_nary(*parts)
     if form == "binl":
         acc = parts[0]
